@@ -47,11 +47,39 @@ func c14Gen(tier string, seed int64) []core.Case {
 		}
 		cs = append(cs, core.Case{ID: id, Class: id, Kind: "fresh", Cost: cost, P: core.P{"bits": bits, "i": i, "n": tierN(tier, 6, 20)}})
 	}
+	// key sizes in every residue class modulo 16: the prime generator sets the top bits of its candidates byte-wise, with
+	// one branch per bit position of the top bit inside its byte
+	for b := 66; b <= 96; b += 2 {
+		id := fmt.Sprintf("keysizes/%dbit", b)
+		cs = append(cs, core.Case{ID: id, Class: id, Kind: "keysizes", Cost: 1, P: core.P{"bits": b, "n": tierN(tier, 8, 40)}})
+	}
+	for _, b := range []int{260, 276} {
+		id := fmt.Sprintf("keysizes/%dbit", b)
+		cs = append(cs, core.Case{ID: id, Class: id, Kind: "keysizes", Cost: 4, P: core.P{"bits": b, "n": tierN(tier, 4, 12)}})
+	}
 	return cs
 }
 
 func c14Run(c core.Case, env *core.Env) core.Result {
 	r := res(c)
+	if c.Kind == "keysizes" {
+		bits := c.P.Int("bits")
+		ctx, cancel := context.WithTimeout(context.Background(), 10*time.Minute)
+		defer cancel()
+		for i := 0; i < c.P.Int("n"); i++ {
+			sk, pk, err := paillier.GenerateKeyPair(ctx, rand.Reader, bits, 4)
+			if err != nil {
+				r.Inconcl("GenerateKeyPair(%d) failed: %v", bits, err)
+				return r
+			}
+			c14KeyStructure(&r, sk, pk, bits)
+			if i == 0 {
+				c14EncDec(&r, sk, 3, rng(env.Seed, c.ID))
+			}
+		}
+		r.NonTrivial = r.Obs["keys_structure_checked"] > 0
+		return r
+	}
 	if c.Kind == "fresh" {
 		bits := c.P.Int("bits")
 		ctx, cancel := context.WithTimeout(context.Background(), 10*time.Minute)
